@@ -513,6 +513,11 @@ PyObject* base_gemm(PyObject *self, PyObject *args, PyObject *kwrds)
   if (transB != 'N' && transB != 'T' && transB != 'C')
     err_char("transB", "'N', 'T', 'C'");
 
+  /* for real matrices 'C' means 'T' (the sparse kernels only test for
+     'N' and 'T') */
+  if (X_ID(A) == DOUBLE && transA == 'C') transA = 'T';
+  if (X_ID(A) == DOUBLE && transB == 'C') transB = 'T';
+
   m = (transA == 'N') ? X_NROWS(A) : X_NCOLS(A);
   n = (transB == 'N') ? X_NCOLS(B) : X_NROWS(B);
   k = (transA == 'N') ? X_NCOLS(A) : X_NROWS(A);
